@@ -35,7 +35,7 @@ Upd(f, k, v) == [x \in DOMAIN f \cup {k} |-> IF x = k THEN v ELSE f[x]]
 
 InitState(ks, lim) ==
   [ ks |-> ks, proof |-> << >>, sig |-> << >>, mq |-> << >>, lq |-> << >>,
-    consumed |-> << >>, lnin |-> 0, lnout |-> 0, lim |-> lim ]
+    consumed |-> << >>, lnin |-> 0, lnout |-> 0, lim |-> lim, mpp |-> FALSE ]
 
 EmptyFn == [x \in {} |-> 0]
 
@@ -197,7 +197,10 @@ MintEffect(S, a, tags) ==
 
 MeltQuoteCauses(S, a) ==
      (IF a.unit # "sat" THEN {"unit"} ELSE {})
-  \cup (IF a.kind = "int" /\ a.target \notin DOMAIN S.mq THEN {"notarget"} ELSE {})
+  \cup (IF a.kind \in {"mpp", "mppint"} /\ ~S.mpp THEN {"mppdisabled"} ELSE {})
+  \cup (IF a.kind = "mppint" THEN {"mppinternal"} ELSE {})     \* a partial payment of one of the mint's own invoices
+  \cup (IF a.kind = "mpp" /\ a.msat >= a.invmsat THEN {"mppnotpartial"} ELSE {})
+  \cup (IF a.kind \in {"int", "mppint"} /\ a.target \notin DOMAIN S.mq THEN {"notarget"} ELSE {})
   \cup (IF S.lim.maxmelt > 0 /\ a.amt > S.lim.maxmelt THEN {"maxmelt"} ELSE {})
   \cup (IF a.kind = "int" /\ \E q \in DOMAIN S.lq : S.lq[q].kind = "int" /\ S.lq[q].target = a.target
         THEN {"exists"} ELSE {})
